@@ -67,7 +67,7 @@ def nontrivial(tv):
     return False
 
 
-def traced_run(prog, schedule_seed=None, form_order=None, ceiling=20000):
+def traced_run(prog, schedule_seed=None, form_order=None, ceiling=4000):
     with trace.Tracer(ceiling=ceiling) as t:
         out = progen.run_program(prog, schedule_seed=schedule_seed, tracer=t, form_order=form_order)
     tv = trace.TraceView(t.events)
